@@ -179,7 +179,10 @@ def parse_op(arch, s):
 
 AMD_JCC = {"JEQ", "JNE", "JLT", "JLE", "JGT", "JGE", "JHI", "JLS", "JCS", "JCC", "JMI", "JPL", "JOS", "JOC", "JPS", "JPC", "JE", "JL", "JG", "JZ", "JNZ",
            "JA", "JAE", "JB", "JBE", "JC", "JNC", "JS", "JNS", "JCXZQ", "JCXZL"}
-AMD_CMP = {"CMPQ", "CMPL", "CMPW", "CMPB", "TESTQ", "TESTL", "TESTW", "TESTB", "BTQ", "BTL"}
+AMD_CMP = {"CMPQ", "CMPL", "CMPW", "CMPB", "TESTQ", "TESTL", "TESTW", "TESTB", "BTQ", "BTL",
+           # vector / mask instructions whose only result is the flags register
+           "KORTESTB", "KORTESTW", "KORTESTD", "KORTESTQ", "KTESTB", "KTESTW", "KTESTD", "KTESTQ", "VPTEST", "PTEST", "VTESTPS", "VTESTPD",
+           "COMISS", "COMISD", "UCOMISS", "UCOMISD", "VCOMISS", "VCOMISD", "VUCOMISS", "VUCOMISD", "PCMPESTRI", "PCMPISTRI", "VPCMPESTRI", "VPCMPISTRI"}
 AMD_MOVKILL = {"MOVQ", "MOVL", "MOVD", "LEAQ", "LEAL", "MOVLQZX", "MOVBQZX", "MOVWQZX", "MOVBLZX", "MOVWLZX", "MOVLQSX", "MOVBQSX", "MOVWQSX",
                "MOVOU", "MOVOA", "MOVUPS", "MOVUPD", "MOVAPS", "MOVAPD", "MOVDQU", "MOVDQA", "POPQ"}
 AMD_MOVMERGE = {"MOVB", "MOVW"}
